@@ -12,8 +12,8 @@
        equation is k * f pointwise for some k > 0;
      one_sheet out f g : out = Ok [cone; plane]; -s is {f < 0 and g > 0},
        +s is {f > 0 or g < 0}, and the cone's zero set is that of f. *)
-From Coq Require Import List ZArith Bool Reals Lra.
-From T4V Require Import Base.Scalar C02.Vec C02.Spec C02.Model C02.Proofs C02.ProofsCards C02.ProofsP3 C02.ProofsAll C02.ProofsAxis C02.ProofsNum C02.ProofsIds.
+From Coq Require Import List NArith ZArith Bool String Ascii Reals Lra.
+From T4V Require Import Base.Str Base.Scalar C02.Vec C02.Spec C02.Model C02.Proofs C02.ProofsCards C02.ProofsP3 C02.ProofsAll C02.ProofsAxis C02.ProofsNum C02.ProofsIds C02.ProofsBand C02.ProofsCounts C02.Text C02.ProofsText.
 Import ListNotations.
 Open Scope R_scope.
 
@@ -340,6 +340,117 @@ Proof.
 Qed.
 Print Assumptions C02_inadmissible_cards_raise.
 
+(* ---------- three-point planes INSIDE the thresholds ---------- *)
+(* For EVERY nine-entry P card the code accepts (|n|^2 > 1e-10, no band guard):
+   the code's orientation is the manual's four rules applied to the
+   THRESHOLDED quantities thr m v = (0 if |v| <= 1e-14 |n| else v) -- code_keep --
+   and the emitted plane is k > 0 times the plane through the three points with
+   that orientation.  It never fails for lack of a deciding quantity. *)
+Theorem C02_P_three_points_thresholded : forall x1 y1 z1 x2 y2 z2 x3 y3 z3 : R,
+  let p1 := (x1, y1, z1) in let p2 := (x2, y2, z2) in let p3 := (x3, y3, z3) in
+  let n := p3_normal RS p1 p2 p3 in
+  e10 < mag2 RS n ->
+  exists keep,
+    p3_keep RS (thr (mag RS n) (vx n), thr (mag RS n) (vy n), thr (mag RS n) (vz n))
+               (thr (mag RS n) (scal RS n p1)) = Some keep /\
+    locus_sense (convert_card RS M_P [x1; y1; z1; x2; y2; z2; x3; y3; z3])
+      (if keep then fM_p RS (vx n) (vy n) (vz n) (scal RS n p1)
+       else fM_p RS (- vx n) (- vy n) (- vz n) (- scal RS n p1)).
+Proof. exact p3_sense_thresholded. Qed.
+Print Assumptions C02_P_three_points_thresholded.
+
+(* the thresholded rule IS the manual's rule whenever D, C, B, A are each zero
+   or clear of the threshold (p3_guard); and it is NOT on the plane z = -t,
+   0 < t <= 1e-14, given by (0,0,-t), (0,1,-t), (1,0,-t): the manual keeps
+   -z - t (origin negative), the code emits z + t, so every point off the
+   plane gets the opposite sense.  The deviation set is exactly: the first
+   non-zero quantity among D, C, B, A lies inside the band and the first one
+   outside the band has the other sign. *)
+Theorem C02_P_three_points_band_deviation :
+  (forall n p1 : vec (T:=R), p3_guard n p1 -> code_keep n p1 = p3_keep RS n (scal RS n p1)) /\
+  (forall t : R, 0 < t <= e14 ->
+     p3_plane RS (0, 0, - t) (0, 1, - t) (1, 0, - t) = Some (0, 0, - (1), t) /\
+     locus_sense (convert_card RS M_P [0; 0; - t; 0; 1; - t; 1; 0; - t])
+                 (fM_p RS (- 0) (- 0) (- - (1)) (- t))).
+Proof. split; [exact code_keep_manual | exact p3_band_deviation]. Qed.
+Print Assumptions C02_P_three_points_band_deviation.
+
+(* ---------- cards outside MCNP's admissibility: what the code does ---------- *)
+(* for every scalar instance: surplus entries are ignored by SO PX PY PZ CX CY
+   CZ SX SY SZ C/X C/Y C/Z SQ; ONE surplus entry after the selector position
+   of a K card makes the selector unread (two-sheet cone); GQ passes any
+   number of entries to QUAD; missing entries raise IndexError; S, P, TX, X
+   want exact counts *)
+Theorem C02_parameter_count_behaviour : forall (T : Type) (S : Scalar T),
+  (forall (v e : T) extra,
+     convert_card S M_SO (v :: e :: extra) = convert_card S M_SO [v] /\
+     convert_card S M_PX (v :: e :: extra) = convert_card S M_PX [v] /\
+     convert_card S M_PY (v :: e :: extra) = convert_card S M_PY [v] /\
+     convert_card S M_PZ (v :: e :: extra) = convert_card S M_PZ [v] /\
+     convert_card S M_CX (v :: e :: extra) = convert_card S M_CX [v] /\
+     convert_card S M_CY (v :: e :: extra) = convert_card S M_CY [v] /\
+     convert_card S M_CZ (v :: e :: extra) = convert_card S M_CZ [v]) /\
+  (forall (a b e : T) extra,
+     convert_card S M_SX (a :: b :: e :: extra) = convert_card S M_SX [a; b] /\
+     convert_card S M_SY (a :: b :: e :: extra) = convert_card S M_SY [a; b] /\
+     convert_card S M_SZ (a :: b :: e :: extra) = convert_card S M_SZ [a; b]) /\
+  (forall (a b c e : T) extra,
+     convert_card S M_C_X (a :: b :: c :: e :: extra) = convert_card S M_C_X [a; b; c] /\
+     convert_card S M_C_Y (a :: b :: c :: e :: extra) = convert_card S M_C_Y [a; b; c] /\
+     convert_card S M_C_Z (a :: b :: c :: e :: extra) = convert_card S M_C_Z [a; b; c]) /\
+  (forall (a b c d e f g x y z e1 : T) extra,
+     convert_card S M_SQ (a :: b :: c :: d :: e :: f :: g :: x :: y :: z :: e1 :: extra) =
+     convert_card S M_SQ [a; b; c; d; e; f; g; x; y; z]) /\
+  (forall (c t2 s e : T) extra (x y z : T),
+     convert_card S M_KX (c :: t2 :: s :: e :: extra) = convert_card S M_KX [c; t2] /\
+     convert_card S M_KY (c :: t2 :: s :: e :: extra) = convert_card S M_KY [c; t2] /\
+     convert_card S M_KZ (c :: t2 :: s :: e :: extra) = convert_card S M_KZ [c; t2] /\
+     convert_card S M_K_X (x :: y :: z :: t2 :: s :: e :: extra) = convert_card S M_K_X [x; y; z; t2] /\
+     convert_card S M_K_Y (x :: y :: z :: t2 :: s :: e :: extra) = convert_card S M_K_Y [x; y; z; t2] /\
+     convert_card S M_K_Z (x :: y :: z :: t2 :: s :: e :: extra) = convert_card S M_K_Z [x; y; z; t2]) /\
+  (forall l : list T, convert_card S M_GQ l = Ok [((QUAD, l), 1%Z)]) /\
+  (convert_card S M_SO [] = Err EIndex /\ convert_card S M_PX [] = Err EIndex /\
+   convert_card S M_CX [] = Err EIndex /\
+   (forall a, convert_card S M_SX [a] = Err EIndex) /\
+   (forall a b, convert_card S M_C_X [a; b] = Err EIndex) /\
+   (forall a, convert_card S M_KX [a] = Err EIndex) /\
+   (forall a b c, convert_card S M_K_X [a; b; c] = Err EIndex) /\
+   (forall a b c d e f g x y, convert_card S M_SQ [a; b; c; d; e; f; g; x; y] = Err EIndex)) /\
+  (forall a b c d e : T,
+     convert_card S M_S [a; b; c] = Err EType /\
+     convert_card S M_S [a; b; c; d; e] = Err EType /\
+     convert_card S M_P [a; b; c] = Err EValue /\
+     convert_card S M_P [a; b; c; d; e] = Err EValue /\
+     convert_card S M_TX [a; b; c; d] = Err EValue /\
+     convert_card S M_X [a; b; c] = Err ENotImpl /\
+     convert_card S M_X [a; b; c; d; e] = Err ENotImpl).
+Proof.
+  intros T S.
+  split; [apply surplus_ignored_1|]. split; [apply surplus_ignored_2|].
+  split; [apply surplus_ignored_3|]. split; [apply surplus_ignored_sq|].
+  split; [intros; apply surplus_drops_selector|]. split; [apply gq_any_count|].
+  split; [apply short_raises|]. apply exact_counts.
+Qed.
+Print Assumptions C02_parameter_count_behaviour.
+
+(* sheet selectors with 2 <= |int(s)| <= 8: the auxiliary plane gets the side
+   -int(s) of that magnitude, and number_items then writes the literal
+   side * free, which names another id than the plane's (free) *)
+Theorem C02_large_selector :
+  (forall (s : R) (k : Z), (2 <= k <= 8)%Z ->
+     (IZR k <= s < IZR (k + 1) -> minus_int RS s = Ok (- k)%Z) /\
+     (IZR (- (k + 1)) < s <= IZR (- k) -> minus_int RS s = Ok k)) /\
+  (forall (z0 t2 s : R) (k : Z), 0 <= t2 -> (2 <= k <= 8)%Z -> IZR k <= s < IZR (k + 1) ->
+     exists cone plane, convert_card RS M_KZ [z0; t2; s] = Ok [(cone, 1%Z); (plane, (- k)%Z)]) /\
+  (forall side free : Z, (0 < free)%Z -> (2 <= Z.abs side)%Z -> Z.abs (side * free) <> free).
+Proof.
+  repeat apply conj.
+  - exact minus_int_large.
+  - exact kz_large_selector.
+  - exact large_side_names_another_id.
+Qed.
+Print Assumptions C02_large_selector.
+
 (* ---------- numbering of the emitted surfaces ---------- *)
 (* CollectionDict.number_items on a dictionary with distinct positive keys and
    sides +-1: no id is given twice, and the k-th id of the matching of a key
@@ -382,6 +493,69 @@ Theorem C02_numbered_ids_select_regions :
                        (pos_ids num (snd km) p <-> pos_coll (snd kv) p)) dic mat.
 Proof. exact numbered_ids_select_regions. Qed.
 Print Assumptions C02_numbered_ids_select_regions.
+
+(* ---------- from the card TEXT (C02/Text.v: Card.content, surfacecard.split,
+   to_float, get_surfaces, string_to_enum; tied by execution) ---------- *)
+(* the statement of C02_every_card_locus_sense starting from the text of the
+   card: if get_surfaces reads it as (flags, number, no TR number, type,
+   parameters) and the type names the mnemonic mn, then the conversion of the
+   text selects the negative- and positive-sense regions of the MCNP surface *)
+Theorem C02_text_every_card_locus_sense :
+  forall (txt bc : string) (name : N) (ty : string) (prm : list R) (mn : mnem) (ms : msurf (T:=R)),
+  parse_surface_card RS txt = Ok (bc, name, ""%string, ty, prm) ->
+  classify ty = TyMnem mn ->
+  mcnp_surface RS mn prm = Some ms -> admissible mn prm ->
+  exists c, convert_text RS txt = Ok c /\ forall p,
+    (neg_coll c p <-> m_f ms p < 0 /\ match m_sheet ms with None => True | Some g => 0 < g p end) /\
+    (pos_coll c p <-> 0 < m_f ms p \/ match m_sheet ms with None => False | Some g => g p < 0 end) /\
+    (exists s rest h, c = (s, 1%Z) :: rest /\ f_T4 RS (fst s) (snd s) = Some h /\
+                      (h p = 0 <-> m_f ms p = 0)).
+Proof. exact text_every_card. Qed.
+Print Assumptions C02_text_every_card_locus_sense.
+
+(* what the scanner reads: a card rendered as blanks, flags (plus, star), the digits
+   of its number, blanks, the mnemonic (letters, /; any case), blanks, the rest
+   is split into exactly these parts, with an empty TR group *)
+Theorem C02_split_surface_render : forall ws0 flags digs ws1 ty ws2 rest : string,
+  all_chars is_ws ws0 = true -> all_chars is_flag flags = true ->
+  all_chars is_digit digs = true -> digs <> ""%string ->
+  all_chars is_ws ws1 = true -> ws1 <> ""%string ->
+  all_chars is_type_char ty = true -> ty <> ""%string ->
+  all_chars is_ws ws2 = true -> ws2 <> ""%string ->
+  starts_not is_ws rest = true -> all_chars (fun c => negb (code c =? 10)%N) rest = true ->
+  split_surface (ws0 ++ flags ++ digs ++ ws1 ++ ty ++ ws2 ++ rest)%string =
+  Some ((flags ++ digs)%string, ""%string, ty, rest).
+Proof. exact split_surface_render. Qed.
+Print Assumptions C02_split_surface_render.
+
+(* what to_float reads: digits [. digits] [exponent] denotes mantissa * 10^(e -
+   number of fraction digits), for the exponent spellings e/E (float()), d/D and
+   the bare signed exponent (re_fortran); a leading sign negates; and the real
+   value of a numeral is +-m * 10^e *)
+Theorem C02_to_float_denotes :
+  (forall d1 d2 suffix e,
+     all_chars is_digit d1 = true -> all_chars is_digit d2 = true ->
+     (d1 <> ""%string \/ d2 <> ""%string) -> suffix_exp suffix = Some e ->
+     scan_real (d1 ++ String "."%char (d2 ++ suffix))%string =
+     Some (mkNum false (parse_digits (d1 ++ d2) 0) (e - Z.of_nat (String.length d2)))) /\
+  (forall d1 suffix e,
+     all_chars is_digit d1 = true -> d1 <> ""%string -> suffix_exp suffix = Some e ->
+     starts_not (fun c => (code c =? 46)%N) suffix = true ->
+     scan_real (d1 ++ suffix)%string = Some (mkNum false (parse_digits d1 0) e)) /\
+  (forall body n,
+     starts_not is_sign body = true -> scan_real body = Some n ->
+     scan_real (String "-"%char body) = Some (mkNum true (n_mant n) (n_exp n)) /\
+     scan_real (String "+"%char body) = Some (mkNum false (n_mant n) (n_exp n)) /\
+     n_neg n = false) /\
+  (forall neg m e,
+     num_value RS (mkNum neg m e) =
+     (if neg then -1 else 1) *
+     (if (0 <=? e)%Z then IZR (Z.of_N m) * IZR (10 ^ e) else IZR (Z.of_N m) / IZR (10 ^ (- e)))).
+Proof.
+  split; [exact scan_real_point|]. split; [exact scan_real_int|].
+  split; [exact scan_real_sign | exact num_value_real].
+Qed.
+Print Assumptions C02_to_float_denotes.
 
 (* ---------- Spec sanity (the Spec says what the manual says) ---------- *)
 Theorem C02_spec_sanity :
@@ -432,6 +606,20 @@ Example C02_example_every_card :
   (exists ms, mcnp_surface RS M_P [0; 0; 1; 1; 0; 1; 0; 1; 1] = Some ms /\
               admissible M_P [0; 0; 1; 1; 0; 1; 0; 1; 1]).
 Proof. exact every_card_examples. Qed.
+
+(* a card text inside all hypotheses of C02_text_every_card_locus_sense
+   (flag, blanks, upper-case mnemonic, a Fortran spelling, a sheet selector) *)
+Example C02_example_text :
+  exists ms, m_sheet ms <> None /\ card_correct (convert_text RS "  *7  KZ 0 1.0d0  -1 "%string) ms.
+Proof. exact text_example. Qed.
+
+Example C02_example_spellings :
+  scan_real "6.40875-2" = Some (mkNum false 640875 (-7)) /\
+  scan_real "1.5d3" = Some (mkNum false 15 2) /\
+  scan_real "-1.5D+3" = Some (mkNum true 15 2) /\
+  scan_real "1.5+3" = Some (mkNum false 15 2) /\
+  scan_real "1.5d" = None /\ scan_real "--1" = None.
+Proof. vm_compute. repeat split. Qed.
 
 (* the model runs: K/Z 1 2 3 4 -1 at binary64 gives CONEZ + PLANEZ with side +1 *)
 Example C02_example_runs :
